@@ -14,5 +14,16 @@ class BoundCallable(CanCustomize, object):
             # Update wrapper if we can, but not fatal if we can't
             pass
 
+    @property
+    def _name(self):
+        # The name of the bound executor, so that layers created by chaining
+        # with_* calls on a bound callable inherit it exactly as they do when
+        # chaining on the executor itself (see CanCustomize).
+        executor = self.__executor
+        for name_attr in ("_name", "_CustomizableThreadPoolExecutor__name"):
+            if hasattr(executor, name_attr):
+                return getattr(executor, name_attr)
+        raise AttributeError("_name")
+
     def __call__(self, *args, **kwargs):
         return self.__executor.submit(self.__fn, *args, **kwargs)
